@@ -27,6 +27,8 @@ C12 -- 16 of 16 caught (exit 1):
 C40 -- 5 of 6 caught (exit 1): failed job not re-queued (stuck + trace); job re-queued after success (rerun-after-success + trace);
   job re-queued after success only when the queue has one element (same); Add re-opens a closed queue (submit-after-close + trace);
   Close keeps the queue and workers drain it (run-after-close: more late starts than workers + trace).
+  Known behaviour of the unchanged code, reported as dissolve:job-started-after-close-returned when the schedule occurs (not forceable): a job
+  dequeued before Close starts after Close() returned.
   Not caught: Close sets closed but keeps cnt/nodes -- an equivalent mutant (Wait/Remove never reach the kept items).
   A resize that loses a job panics inside a worker goroutine and kills the harness process: exit 2 (inconclusive), not 1.
 C42 -- 7 of 7 effective mutants caught (exit 1), on a tree with the putItemBuf fix: nextLogBase2 one class low for 2^i+1 (class table +
@@ -97,12 +99,12 @@ def c12(c):
     quick = c.tier == 'quick'
     # 1. design: the concrete ring refines the FIFO (exhaustive), the writer over the FIFO delivers exactly
     if not _FAST:
-        r = c.tlc_exhaustive('Writer', 'Ring', 'ring_quick.cfg' if quick else 'ring_thorough.cfg', workers=4, timeout=1500)
+        r = c.tlc_exhaustive('Writer', 'Ring', 'ring_quick.cfg' if quick else 'ring_thorough.cfg', workers=8, timeout=1500)
         c.log('Ring: %d distinct / %d generated states' % (r['distinct'], r['states']))
-        r = c.tlc_exhaustive('Writer', 'Writer', 'writer_quick.cfg' if quick else 'writer_thorough.cfg', workers=4, timeout=2400)
+        r = c.tlc_exhaustive('Writer', 'Writer', 'writer_quick.cfg' if quick else 'writer_thorough.cfg', workers=8, timeout=2400)
         c.log('Writer: %d distinct / %d generated states, depth %d' % (r['distinct'], r['states'], r['depth']))
     if not quick and not _FAST:
-        r = c.tlc_exhaustive('Writer', 'Writer', 'writer_live.cfg', workers=4, timeout=2400)
+        r = c.tlc_exhaustive('Writer', 'Writer', 'writer_live.cfg', workers=8, timeout=2400)
         c.log('Writer liveness (FairSpec): %d distinct states' % r['distinct'])
     binp = c.go_build('writer')
     # 2. S: simulated operation sequences of the ring replayed into internal/queue
@@ -160,10 +162,10 @@ def c12(c):
 def c40(c):
     quick = c.tier == 'quick'
     if not _FAST:
-        r = c.tlc_exhaustive('Dissolve', 'Dissolve', 'quick.cfg' if quick else 'thorough.cfg', workers=4, timeout=1500)
+        r = c.tlc_exhaustive('Dissolve', 'Dissolve', 'quick.cfg' if quick else 'thorough.cfg', workers=8, timeout=1500)
         c.log('Dissolve safety: %d distinct / %d generated states' % (r['distinct'], r['states']))
         # liveness under fairness (no VIEW, no state constraint): Submitted ~> Succeeded \/ closed; workers exit after Close
-        r = c.tlc_exhaustive('Dissolve', 'Dissolve', 'live.cfg' if quick else 'live_thorough.cfg', workers=4, timeout=2400)
+        r = c.tlc_exhaustive('Dissolve', 'Dissolve', 'live.cfg' if quick else 'live_thorough.cfg', workers=8, timeout=2400)
         c.log('Dissolve liveness (FairSpec): %d distinct states' % r['distinct'])
     binp = c.go_build('writer')
     nruns = 1500 if quick else 12000
@@ -194,7 +196,11 @@ def c40(c):
                      'Submit after Close); jobs log their own start/end; observable monitor on every run + bounded-time quiescence for the liveness clause; first N traces '
                      'validated by TLC against DissolveTrace; non-trivial = >1 worker, >1 job and at least one failed run, distinct by trace')
     c.assumptions += ['"runs until success" is demanded while the dissolver is open: Close discards queued jobs by design (documented in dissolve.go); StrongLiveness in Dissolve.tla states the absolute reading, TLC refutes it (strong.cfg)',
-                      '"no job executed after close": a job a worker had dequeued before Close may still start (at most one per worker); no dequeue and no re-queue after Close',
+                      '"no job executed after close" is kept as stated for the observable monitor: a job whose first statement is numbered after the return of Close() is reported as '
+                      'dissolve:job-started-after-close-returned (the code allows it for a job a worker had already dequeued, at most one per worker: runWorker calls job() right after '
+                      'queue.Wait() returns, with no harness-controllable step in between, so a directed scenario -- Close called while 2-3 workers cycle through instant jobs -- makes the schedule '
+                      'likely but cannot force it); the specification itself models what the code does (no dequeue and no re-queue after Close, lateStarts <= 1 per worker)',
+                      'the two clauses of the statement conflict at Close (it discards queued jobs): reading kept = retry-until-success while open',
                       'each job is submitted once; jobs fail a finite number of times',
                       'liveness on the real code is a bounded-time check (5 s; typical completion < 5 ms)']
 
@@ -203,14 +209,14 @@ def c40(c):
 def c42(c):
     quick = c.tier == 'quick'
     if not _FAST:
-        r = c.tlc_exhaustive('Pools', 'Pools', 'quick.cfg' if quick else 'thorough.cfg', workers=4, timeout=1500)
+        r = c.tlc_exhaustive('Pools', 'Pools', 'quick.cfg' if quick else 'thorough.cfg', workers=8, timeout=1500)
         c.log('Pools (write/append/foreign/put): %d distinct / %d generated states' % (r['distinct'], r['states']))
         if not quick:
-            r = c.tlc_exhaustive('Pools', 'Pools', 'reslice_bs.cfg', workers=4, timeout=1500)
+            r = c.tlc_exhaustive('Pools', 'Pools', 'reslice_bs.cfg', workers=8, timeout=1500)
             c.log('Pools bytes+slices with reslicing: %d distinct states' % r['distinct'])
         # model-level finding (rule 1): with reslicing before Put the item-buffer model violates GetOK; whether the real
         # code does is decided below by the replay (scripts with Reslice)
-        r = c.tlc('Pools', 'Pools', 'reslice_items.cfg', workers=4, timeout=600, expect_violation=True)
+        r = c.tlc('Pools', 'Pools', 'reslice_items.cfg', workers=8, timeout=600, expect_violation=True)
         c.cov['model_counterexample_items_reslice'] = bool(r['error'] and 'GetOK' in r['error'])
         c.log('Pools items with reslicing: model %s' % ('violates GetOK (counterexample: Get, Write, Reslice shorter, Put, Get)' if c.cov['model_counterexample_items_reslice'] else 'holds'))
     binp = c.go_build('writer')
